@@ -207,6 +207,11 @@ func corrC03(outDir string, seed uint64, tier string, replay string) *report {
 		}
 		if got != hx(impl) {
 			rep.ModelMismatches = append(rep.ModelMismatches, map[string]interface{}{"scheme": scheme, "what": what, "args": args, "implementation": hx(impl), "model": got})
+			// the model is the reference written from the algorithm's specification (and agrees with libxcrypt wherever
+			// libxcrypt speaks): a key that differs from it on a concrete input is a failing input, in particular for the
+			// legacy behaviour no libcrypt decides (bcrypt $2$ / long passwords, Sun MD5 salt-string forms, UTF-16)
+			rep.fail(map[string]interface{}{"scheme": scheme, "args": args, "request_to_the_extracted_model": req}, "key "+got+" (Coq "+what+" model of the published algorithm, real primitives)",
+				"key "+hx(impl), "the derived key differs from the reference written from the algorithm specification")
 		}
 		rep.bump(scheme + "_" + what)
 	}
@@ -371,6 +376,23 @@ func corrC03(outDir string, seed uint64, tier string, replay string) *report {
 						ref("bcrypt", a, pw, prefix+"04$"+salt+bcrypt.Encoding.EncodeToString(key))
 					}
 					rep.count("bcrypt"+pw+salt+prefix, true)
+				}
+			}
+			// ---- bcrypt at the length rules: 72-byte truncation, NUL terminator, the >= 254-byte rule of the pre-2b variants
+			if i < 9 {
+				n := []int{71, 72, 73, 74, 252, 253, 254, 255, 256}[i]
+				lp := r.str(n, "abcXYZ019\xe9")
+				raw := r.bytes(16)
+				salt := bcrypt.Encoding.EncodeToString(raw)
+				for _, prefix := range []string{"$2b$", "$2a$", "$2$"} {
+					key, err := bcrypt.Key([]byte(lp), []byte(salt), 4, &bcrypt.CompatibilityOptions{Prefix: prefix})
+					if err != nil {
+						continue
+					}
+					kb := bcryptKeyBytes(lp, prefix)
+					a := map[string]interface{}{"password_len": len(lp), "password_hex": hx([]byte(lp)), "salt": salt, "prefix": prefix}
+					cmp("bcrypt", "spec", a, key, fmt.Sprintf("bcrypt_spec %s %s 4", hx(kb), hx([]byte(salt))))
+					rep.count("bcryptlen"+lp+salt+prefix, true)
 				}
 			}
 			// ---- nthash: the UTF-16 encoding is the modelled part ----
